@@ -329,7 +329,8 @@ func refererMatchesHost(c fiber.Ctx, trustedOrigins []string, trustedSubOrigins 
 		return nil
 	}
 
-	referer = refererURL.String()
+	// compare the origin of the referer only, its path is controlled by the referring page
+	referer = refererURL.Scheme + "://" + refererURL.Host
 
 	for _, trustedOrigin := range trustedOrigins {
 		if referer == trustedOrigin {
